@@ -4,6 +4,9 @@ import json, os, subprocess
 ROOT = os.path.dirname(os.path.abspath(__file__))
 ALL = ["C%02d" % i for i in range(1, 21)]
 CHECKS = {
+ "C19": dict(engine="tlc+vh-replay", technique="TLA+ spec HttpGate.tla: gate table + body-reader state machine (one action per body frame) model-checked by TLC; every framing replayed through the tower service with explicit frames, differential against the one-chunk exchange",
+             text="HttpGate.tla states the method/content-type gate and models the body reader frame by frame with the invariant that the sniffing verdict is a function of the concatenation; TLC enumerates every gate pair and every framing (cut subsets, blank/empty frame insertions, Content-Length on/off) of six bodies; each is replayed into the real tower service and compared with the one-chunk exchange of the same bytes and with the spec's answer class; the as-is config documents F14.",
+             note="cut offsets and blank bytes are seeded; JSON content types with foreign parameters may go either way", ref="5 (C19)"),
  "C01": dict(engine="tlc+vh-replay", technique="TLA+ transcription of the message classifier (Wire.tla) enumerated exhaustively by TLC over a member-class alphabet; every case concretised and replayed over HTTP and WebSocket into the real server",
              text="Wire.tla transcribes the three-stage classification (call / notification / id recovery) and the reply owed per transport; TLC checks the property's own sentences as meta-invariants over all 8408 abstract texts and emits the expected reply of each; the harness concretises every case (seeded values, member order, whitespace, truncation) and compares reply count, well-formedness, id identity, code / handler result, handler log, HTTP=WS agreement and connection liveness on the real server.",
              note="abstract classes exhaustive; concrete bytes seeded samples; duplicate member names and >127 bytes of leading whitespace outside the alphabet; in-process rigs (tower service, duplex WebSocket)", ref="5 (C01)"),
